@@ -1,6 +1,6 @@
 (* C16 — Drawing never escapes the canvas or its clip region.
    Only statements here; each closed by [exact] of a lemma from Proofs/. *)
-From RP Require Import Lib.Base Model.Mono Spec.Clip Proofs.PixelProofs Proofs.DrawProofs Proofs.OpsProofs.
+From RP Require Import Lib.Base Model.Mono Model.MonoConv Spec.Clip Proofs.PixelProofs Proofs.DrawProofs Proofs.OpsProofs Proofs.TailOps.
 
 (* A fresh canvas of any size >= 0 is well-formed: buffer length = ceil(W/8)*H, all bytes < 256. *)
 Theorem c16_new_image_wf : forall w h, 0 <= w -> 0 <= h -> wf_img (new_image w h).
@@ -56,6 +56,32 @@ Theorem c16_ops_frame : forall (ops : list op) (i : img),
 Proof. exact ops_frame. Qed.
 Print Assumptions c16_ops_frame.
 
+(* Canvases over caller buffers LONGER than the canvas needs (CreateFromBytes keeps the whole slice):
+   "the pixel buffer keeps its size ... a pixel addressed outside the canvas is dropped" includes the
+   bytes behind the last canvas row.  [with_tail i tl] = image [i] with [tl] appended to its buffer.
+   Every operation list acts on it exactly as on [i] - so all statements above carry over to its
+   pixel part - and the tail comes back byte for byte. *)
+Theorem c16_ops_on_longer_buffer : forall (ops : list op) (i : img) (tl : list Z),
+  wf_img i ->
+  run_ops (with_tail i tl) ops = with_tail (run_ops i ops) tl.
+Proof. exact ops_tail. Qed.
+Print Assumptions c16_ops_on_longer_buffer.
+
+Theorem c16_tail_untouched : forall (ops : list op) (i : img) (tl : list Z),
+  wf_img i ->
+  (idata (run_ops (with_tail i tl) ops) = (idata (run_ops i ops) ++ tl)%list) /\
+  (skipn (length (idata (run_ops i ops))) (idata (run_ops (with_tail i tl) ops)) = tl).
+Proof. exact ops_tail_bytes. Qed.
+Print Assumptions c16_tail_untouched.
+
+(* CreateFromBytes(w, h, data ++ tl), |data| = ceil(w/8)*h, is that image *)
+Theorem c16_create_from_longer_bytes : forall w h data tl,
+  0 <= w -> 0 <= h -> zlen data = ceil_div8 w * h ->
+  (fst (create_from_bytes w h (data ++ tl)%list) = with_tail (fst (create_from_bytes w h data)) tl)
+  /\ (snd (create_from_bytes w h (data ++ tl)%list) = true) /\ (snd (create_from_bytes w h data) = true).
+Proof. exact create_from_bytes_tail. Qed.
+Print Assumptions c16_create_from_longer_bytes.
+
 (* Single pixels, straight lines and filled rectangles set EXACTLY the clipped footprint. *)
 Theorem c16_exact : forall (i : img) (o : op) (col : bool),
   wf_img i -> exact_colour o = Some col ->
@@ -81,3 +107,8 @@ Proof.
   split; [|split; reflexivity].
   apply (proj1 (ops_frame _ _ (wfg_new_image 12 5 ltac:(lia) ltac:(lia)))).
 Qed.
+
+Example c16_nonvacuous_tail :
+  let i := new_image 12 2 in
+  idata (run_ops (with_tail i [18; 52]) [OSetBBox 0 0 12 9; OFillRect 0 0 12 9 true]) = [255; 240; 255; 240; 18; 52].
+Proof. vm_compute. reflexivity. Qed.
